@@ -1716,7 +1716,7 @@ theorem switchFeatures_repeatable : ∀ v, Repeatable SwitchFeatures.lenM Switch
         let h := Header.setLength l1 h
         let hb ← Header.bytes h
         let (pbs, _) ← mapM2 PhyPort.marshalM ports
-        let bs ← fill l0.toNat ([pCopy hb, pU32 b, pU8 nt, pU8 ax, pCopy pad, pU32 caps, pU32 acts] ++ pbs.map pCopy)
+        let bs ← fill l0.toNat ([pCopy hb, pCopy dpid.asBytes, pU32 b, pU8 nt, pU8 ax, pCopy pad, pU32 caps, pU32 acts] ++ pbs.map pCopy)
         .ok (bs, .obj "SwitchFeatures" [h, dpid, .num b, .num nt, .num ax, .bytes pad, .num caps, .num acts, .list ports])
       | _ => .panic)
   · intro v; rfl
